@@ -11,6 +11,9 @@ NEUTRALISED = {
  'C16-m2': 'needed the positional renumbering of object folders in _saveXmlObjects, removed by fix 2b3705d; with the change applied the property holds',
  'C09-m2': 'needed an incomplete element index (appendChild/insertBefore not indexing), repaired by fix 9c0fd92; with a complete index the short-cut returns the same lists',
 }
+CROSS = {
+ 'C05-mD': 'the change is one row of the converter table; the check of C15 (values the schema allows are accepted, also through load()) reports it with a failing input: sh tools/seed_run.sh C05 D C15 -> exit 1. The C05 check does not vary attribute values',
+}
 for d in sorted(glob.glob(os.path.join(V, 'seeded', 'C??-m?'))):
     b = os.path.basename(d); pid = b.split('-')[0]
     notes = open(os.path.join(d, 'NOTES.md')).read() if os.path.exists(os.path.join(d, 'NOTES.md')) else ''
@@ -28,6 +31,7 @@ for d in sorted(glob.glob(os.path.join(V, 'seeded', 'C??-m?'))):
     elif 'no-failing-input-found' in res: status = 'detected as a broken obligation, no failing input found'
     elif 'VIOLATION' in res: status = 'detected with a failing input'
     elif 'exit=0' in res and b in NEUTRALISED: status = 'neutralised: ' + NEUTRALISED[b]
+    elif 'exit=0' in res and b in CROSS: status = 'detected by another check: ' + CROSS[b]
     elif 'exit=0' in res: status = 'NOT detected'
     else: status = res
     meta = {'seed': b, 'property': pid, 'title': title, 'breaks': para('Clause broken') or para('Clause'),
